@@ -178,9 +178,13 @@ PROPS = {
     "C17": {"suites": [("r64", 1.0), ("l2r64", 0.6)], "theorems": L1_ALGEBRA + L1_MUT[:5] + L1_QUERY[:9] + L1_NBR[:4] +
             ["RModel.Facts.r64Highbits_spec", "RModel.Facts.r64Lowbits_spec"] + L2_R64 + ["RModel.Impl.Rep64.toBSetFast_eq'"],
             "modules": DEFAULT_MODULES + ["RProofs.Facts.Bits", FASTEQ_MOD, "RProofs.Rep64", "RProofs.Rep64Range", "RProofs.Rep64InPlace", "RProofs.Rep64Witness"], "owns": None},
-    "C18": {"suites": [("ser64", 1.0)], "theorems": ["RModel.BSet.canon_ext", "RModel.Facts.r64_cookies_spec",
-                                                     "RModel.Impl.decode_encode", "RModel.Impl.prefix_rejected", "RModel.Impl.decode_no_panic"],
-            "modules": DEFAULT_MODULES + [FACTS, "RProofs.Properties.C05"], "owns": None},
+    "C18": {"suites": [("ser64", 1.0), ("l2ser64", 1.0)],
+            "theorems": ["RModel.BSet.canon_ext", "RModel.Facts.r64_cookies_spec",
+                         "RModel.Impl.decode_encode", "RModel.Impl.prefix_rejected", "RModel.Impl.decode_no_panic",
+                         "RModel.Impl.Rep64.encode_length", "RModel.Impl.decode64_encode", "RModel.Impl.decode64_prefix_rejected",
+                         "RModel.Impl.decode64_no_panic", "RModel.FormatSpec.encode64_conforms", "RModel.Impl.decoded_valid_is_wf64",
+                         "RModel.Impl.decode64_bucket_bound", "RModel.Impl.roundtrip_wf64"],
+            "modules": DEFAULT_MODULES + [FACTS, "RProofs.Properties.C05", "RProofs.Serial64"], "owns": None},
     "C19": {"suites": [("bsi", 1.0)], "corpus": ["corpus/bsi/F02_marshal_sign.txt", "corpus/bsi/F14_unmarshal_reused_receiver.txt"],
             "theorems": ["RModel.BSI.wf_new", "RModel.BSI.wf_setValue", "RModel.BSI.get_set_same", "RModel.BSI.get_set_other",
                          "RModel.BSI.exists_set", "RModel.BSI.get_foldl_setValue", "RModel.BSI.wf_foldl_setValue",
@@ -224,7 +228,7 @@ _LT = {
     "C15": "L1: nextValue/prevValue/nextAbsent/prevAbsent specifications; L2: the container algorithms proved to return them. Tie: kernel-level and public neighbour queries against both.",
     "C16": "L1: shift with clipping, flipRange; L2: AddOffset64, static Flip, ToDense/FromDense modelled exactly and proved (toBSet_*, wf_*, dense round trip). Tie: exact representation / exact word list (l2xform), digest comparison, borrowed word slices never written.",
     "C17": "L1 with universe 2^64 and the proved key split; L2: the bucket structure of the 64-bit bitmap with static/in-place binary operations, Flip, AddRange, RemoveRange proved against L1 (32-bit operations inside touched buckets enter as a parameter with a proved instance). Tie: bucket structure compared exactly, everything else through digests.",
-    "C18": "The inner 32-bit streams are covered by the 32-bit round-trip theorems; the 64-bit framing is tied by an independent spec reading and byte accounting. Tie: every entry point, trailing bytes, reused receivers, truncations, corrupted headers, many buckets.",
+    "C18": "The 64-bit writer/reader model is proved on top of the 32-bit theorems: exact length, round trip with trailing bytes and exact consumption, every proper prefix rejected, no panic, the untrusted bucket count bounded by the data (decode64_bucket_bound), conformance with the independent spec reading, accepted-and-validated implies well-formed. Tie: encode(representation) = bytes byte for byte, the model decoder classifies every generated stream like Go with the same bucket structure and Validate verdict; every entry point, trailing bytes, reused receivers, truncations, corrupted headers, many buckets.",
     "C19": "Both BSI implementations are modelled plane by plane and proved against a map from column to integer (set/get, histories of SetValue, clear, retain, ParOr, Add/Increment for the 32-bit one, widening, two's complement helpers regenerated from the source). Tie: the real bit planes (hooks) must equal the plane model after every update; map oracle for every operation. One recorded finding (MarshalBinary cannot carry the sign plane).",
     "C20": "Plane-algebra comparison, Sum, MinMax (and BatchEqual for the 32-bit index) proved against the map semantics; monotonicity of the signed/unsigned transform proved from the regenerated helper. Tie: every query against the map oracle, also answered by the plane algorithms.",
 }
